@@ -16,8 +16,13 @@ B_WARN = ('C07',)
 
 def units(tier, seed):
     us = cases.fault_units(tier, seed, with_prims=True)
+    if tier == "quick":
+        # quick: the session-count / password-session variants are left to C08 (same inputs, warn mode) and C03 (strict)
+        us = [u for u in us if u["variant"] not in ("sess0", "sess4", "decrypt-pw", "failed-flag")]
     for u in us:
         u["seed"], u["tier"] = seed, tier
+        if tier == "quick" and u["kind"] == "struct":
+            u["subst_alphabet"] = (0x00, 0x01, 0x7F, 0x80, 0xFF)
         if tier == "quick" and u["kind"] != "struct":
             u["value_valid"] = False  # quick: frames without the in-range substitutions (C04 runs them in strict mode)
             u["subst_alphabet"] = (0x00, 0xFF)  # quick: frames get the two extreme substitute bytes, structures all ten
